@@ -503,13 +503,20 @@ impl<M: Manager, W: From<Object<M>>> Pool<M, W> {
      * always reports a `max_size` of 0 for closed pools.
      */
     pub fn resize(&self, max_size: usize) {
+        self.resize_inner(max_size, false)
+    }
+
+    fn resize_inner(&self, max_size: usize, closing: bool) {
         #[cfg(deadpool_verif)]
         crate::verif::point("resize:enter", Arc::as_ptr(&self.inner) as usize);
-        if self.inner.semaphore.is_closed() {
-            return;
-        }
         let mut released = Vec::new();
         let mut slots = self.inner.slots.lock().unwrap();
+        // Checked while holding the lock: `close()` closes the semaphore
+        // before it shrinks the pool, so a concurrent `resize()` either
+        // happens entirely before that shrink or not at all.
+        if !closing && self.inner.semaphore.is_closed() {
+            return;
+        }
         let old_max_size = slots.max_size;
         slots.max_size = max_size;
         // shrink pool
@@ -628,10 +635,10 @@ impl<M: Manager, W: From<Object<M>>> Pool<M, W> {
     ///
     /// This operation resizes the pool to 0.
     pub fn close(&self) {
-        self.resize(0);
+        self.inner.semaphore.close();
         #[cfg(deadpool_verif)]
         crate::verif::point("close:resized", Arc::as_ptr(&self.inner) as usize);
-        self.inner.semaphore.close();
+        self.resize_inner(0, true);
         #[cfg(deadpool_verif)]
         crate::verif::point("close:exit", Arc::as_ptr(&self.inner) as usize);
     }
